@@ -25,6 +25,11 @@ Sub-spaces
            D*t/v, t/(v*D), D2*t/v (the total is dimensionless, the factor must still be the plain product) (complete)
            + one fixed struct window {%, [pi]2, km, #SLEN, m2, daar} (km/#SLEN and m2/daar cancel)
 
+  table    every row of the three tables is validated against the schema of units_ref.SCHEMA before it is adopted as
+           specification (prefixes: True / False / list of known prefixes; magnitude: finite number > 0; dimensions:
+           8 integers or pairs); a malformed cell is reported as failure sub 'table', behaviour 'malformed-row' and
+           its row is left out of the reference (so the parser's reading of a broken row is never "expected")
+
 History dimension: every string that must be rejected is parsed four times in the same process (BaseUnits twice,
 Quantity(1, .) twice) and has to be rejected every time; every string that must be accepted is parsed by BaseUnits and
 again by Quantity and both results are compared.  replay() executes the case in a fresh interpreter, so a record
@@ -289,10 +294,24 @@ def _libmap(b):
     return out
 
 
+def _table_failure(case, exp, obs):
+    return failure("table", case, exp, obs, tags=["table:" + case["table"], "column:" + case["column"]],
+                   behaviour="malformed-row")
+
+
+def _fixed_alphabet_missing():
+    """fixed spellings the sub-spaces are built on; if the tables no longer provide them only 'table' can run"""
+    need = [a for a, _ in CORE + DIMLESS_WINDOW] + DIMLESS + ["m", "s", "kg"]
+    return sorted(set(n for n in need if n not in _REF.spellings))
+
+
 def check_case(case):
     """Execute one case on the library and compare with the reference.  Returns a failure record or None.
 
     case: dict(sub, text, expect) with expect None (must be rejected) or dict(terms, numbers)."""
+    if case.get("sub") == "table":
+        r = units_ref.UnitsRef.replay_schema_case(case)
+        return None if r is None else _table_failure(case, r[0], r[1])
     BaseUnits, Quantity = _lib()
     ref = _REF
     sub, text, expect = case["sub"], case["text"], case["expect"]
@@ -402,7 +421,10 @@ def _atom_case(sub, text, base, e, extra_tags=()):
 # ----------------------------------------------------------------------------------------------- engine
 def plan(tier, seed):
     init_worker()
-    shards = [("atom", i, N_ATOM_SHARDS) for i in range(N_ATOM_SHARDS)]
+    if _fixed_alphabet_missing():
+        return [("table",)]
+    shards = [("table",)]
+    shards += [("atom", i, N_ATOM_SHARDS) for i in range(N_ATOM_SHARDS)]
     shards += [("insert", i, N_INSERT_SHARDS) for i in range(N_INSERT_SHARDS)]
     shards += [("sweep", i, N_SWEEP_SHARDS) for i in range(N_SWEEP_SHARDS)]
     windows = [0, NWINDOWS + 1] + ([1 + seed % NWINDOWS] if tier == "quick" else list(range(1, NWINDOWS + 1)))
@@ -445,7 +467,16 @@ def _tables_guard(sh):
 def run_shard(desc):
     sh = Shard(PROPERTY)
     kind = desc[0]
-    if kind == "atom":
+    if kind == "table":
+        sh.evaluations += _REF.rows_validated
+        sh.count("table:rows-validated", _REF.rows_validated)
+        for case, exp, obs in _REF.schema_cases():
+            sh.nontrivial += 1
+            sh.fail(_table_failure(case, exp, obs))
+        if _fixed_alphabet_missing():
+            sh.count("table:fixed-alphabet-unavailable")
+            sh.add_extra("fixed_alphabet_missing", _fixed_alphabet_missing())
+    elif kind == "atom":
         cases = _atom_cases()
         for n, (text, base, e, why) in enumerate(cases[desc[1]::desc[2]]):
             c = _atom_case("atom", text, base, e)
@@ -565,6 +596,11 @@ def replay(rec):
 
 def finish(total, tier, seed):
     h = total.hist
+    if h.get("table:fixed-alphabet-unavailable"):
+        # the tables are so broken that the fixed alphabets do not exist; the 'table' failures say why
+        return dict(caps_hit=["only the table schema was checked: fixed alphabet unavailable"], exhaustive=False)
+    if h.get("table:rows-validated", 0) < 200:
+        raise HarnessError("table schema not validated: %r" % (h,))
     if h.get("atom:accept-expected", 0) < 1000 or h.get("atom:reject-expected", 0) < 1000:
         raise HarnessError("vacuous atom sub-space: %r" % (h,))
     if h.get("insert:reject-expected", 0) < 1000:     # valid results of an insertion belong to the atom sub-space
